@@ -5,6 +5,7 @@ import (
 	"fmt"
 	"hash/fnv"
 	"math"
+	"strings"
 	"time"
 
 	"verif/mc/engine"
@@ -141,6 +142,15 @@ func init() {
 			}
 		},
 		Enum: func(tier string, e *engine.Emitter) {
+			// start from non-initial states: a and b are the live values a caller holds after Patch
+			// (built by hunks at the array level, by whole-value replacement, and by hunks whose
+			// paths lead through array positions and keyed members), not freshly parsed ones
+			lv := c04LiveDocs()
+			for _, con := range []string{"none", "SET", "MULTISET", "replace:none", "replace:SET", "leaf:none", "leaf:SET", "leaf:MULTISET", "leaf:SETKEYS:id"} {
+				for _, o := range c04Opts {
+					pairs(e, "c04live/"+con+"/"+o, "live/"+con+"->"+o, lv, lv)
+				}
+			}
 			u := c04Universe(tier)
 			al := NewTextSet(AliasDocs())
 			for _, o := range c04Opts {
@@ -183,7 +193,22 @@ func init() {
 	})
 }
 
+func c04LiveDocs() *TextSet {
+	return memoize("c04-live", func() *TextSet {
+		vs := append([]V{}, c05LiveDocs().Vals...)
+		vs = append(vs, thin(Keyed(2, false), 40).Vals...)
+		vs = append(vs, thin(ObjInList(), 40).Vals...)
+		return NewTextSet(vs)
+	})
+}
+
 func runC04(c *engine.Case) engine.Result {
+	construct := ""
+	if strings.HasPrefix(c.Kind, "c04live/") {
+		parts := strings.SplitN(strings.TrimPrefix(c.Kind, "c04live/"), "/", 2)
+		construct = parts[0]
+		c = &engine.Case{Kind: "c04:" + parts[1], Leg: c.Leg, A: c.A, B: c.B}
+	}
 	o := impl.Options(optOf(c.Kind))
 	aV, bV := ref.MustParse(c.A), ref.MustParse(c.B)
 	var want bool
@@ -197,8 +222,24 @@ func runC04(c *engine.Case) engine.Result {
 	}
 	res := engine.Result{Traces: 1}
 	var fail string
+	live := 0
 	p := impl.Guard(func() {
 		a, b := impl.Read(c.A), impl.Read(c.B)
+		if construct != "" {
+			// the live value stands in only where it denotes exactly the document of the case
+			if l, ok := impl.Live(c.A, construct); ok {
+				if lv, err := impl.ToV(l); err == nil && ref.Equal(lv, aV, ref.List) {
+					a = l
+					live++
+				}
+			}
+			if l, ok := impl.Live(c.B, construct); ok {
+				if lv, err := impl.ToV(l); err == nil && ref.Equal(lv, bV, ref.List) {
+					b = l
+					live++
+				}
+			}
+		}
 		got := a.Equals(b, o.Opts...)
 		rev := b.Equals(a, o.Opts...)
 		refl := a.Equals(impl.Read(c.A), o.Opts...)
@@ -228,6 +269,12 @@ func runC04(c *engine.Case) engine.Result {
 		res.Bucket = "unequal"
 	}
 	res.Bucket += "/" + o.Name
+	if construct != "" {
+		res.Bucket += fmt.Sprintf("/live-operands:%d", live)
+		if fail != "" {
+			fail = "with the operands built as live results of Patch (" + construct + "): " + fail
+		}
+	}
 	res.Nontrivial = c.A != c.B
 	res.Violation = fail
 	return res
